@@ -233,6 +233,11 @@ def cmp_of_switch(body, dag, b):
 
 def canon_cmp(op, a, b):
     """canonical strict/non-strict forms: returns (op', a', b') with op' in ('lt','le','eq','ne') (gt/ge swapped)"""
-    if op == "Gt": return ("lt", b, a)
-    if op == "Ge": return ("le", b, a)
+    if op == "Gt": op, a, b = "Lt", b, a
+    elif op == "Ge": op, a, b = "Le", b, a
+    if op == "Le":
+        # over the integers `c <= x` is `c-1 < x` and `x <= c` is `x < c+1`: one canonical (strict) form when a literal is involved
+        ca, cb = strip_casts(a), strip_casts(b)
+        if ca[0] == "const" and isinstance(ca[1], int): return ("lt", ("const", ca[1] - 1), b)
+        if cb[0] == "const" and isinstance(cb[1], int): return ("lt", a, ("const", cb[1] + 1))
     return (op.lower(), a, b)
